@@ -126,6 +126,11 @@ pub trait Case: Serialize + DeserializeOwned + 'static {
     fn shape() -> String {
         "struct".into()
     }
+    /// serde shape class: the AlphaSerializer / AlphaDeserializer method that handles the type
+    /// (used in signatures of the wrapped forms: one forwarding method, one signature)
+    fn class() -> String {
+        Self::shape()
+    }
     /// call-site label in finding signatures
     fn sig() -> String {
         Self::name()
@@ -271,8 +276,11 @@ impl<C: Case, A: Prim> Case for Alpha<C, A> {
     fn shape() -> String {
         format!("Alpha<{}>", C::shape())
     }
+    fn class() -> String {
+        format!("Alpha<{}>", C::class())
+    }
     fn sig() -> String {
-        format!("Alpha<{}>", C::shape())
+        format!("Alpha<{}>", C::class())
     }
     fn applicable(f: Fmt) -> bool {
         C::applicable(f)
@@ -307,8 +315,11 @@ where
     fn shape() -> String {
         format!("PreAlpha<{}>", C::shape())
     }
+    fn class() -> String {
+        format!("PreAlpha<{}>", C::class())
+    }
     fn sig() -> String {
-        format!("PreAlpha<{}>", C::shape())
+        format!("PreAlpha<{}>", C::class())
     }
     fn applicable(f: Fmt) -> bool {
         C::applicable(f)
